@@ -73,13 +73,13 @@ def build(config, tier):
         head = mode + " let a: %s = vk::any(); vk::assume(a.is_finite()); let si = sp::lat2(1); let ti = sp::lat2(1); let s = <%s>::from_array(sp::f%dx2(si)); let t = <%s>::from_array(sp::f%dx2(ti));" % (t_, V, w, V, w)
         body = head + "\n    let l = <%s>::from_scale_angle_translation(s, a, t).to_cols_array(); let r = (<%s>::from_translation(t) * <%s>::from_angle(a) * <%s>::from_scale(s)).to_cols_array();\n    check!(%s, \"SAT == T * R * S\");" % (T, T, T, T, arr_eq("l", "r", nn))
         obs.append(Ob("c10_%s_%s_sat" % (config, ln), PROP, body, fn="%s::from_scale_angle_translation" % T, kind="lemma", solver="cadical", stubs=["sse", "uf_sin_cos%d" % w], cls="lattice",
-                      tier="quick" if w == 32 else "thorough",
+                      tier="quick",
                       desc="%s::from_scale_angle_translation(s, a, t) == from_translation(t) * from_angle(a) * from_scale(s) exactly (sin/cos uninterpreted on the lattice, every angle)" % T))
         if T.endswith("Affine2"):
             body = head + "\n    let l = <%s>::from_angle_translation(a, t).to_cols_array(); let r = (<%s>::from_translation(t) * <%s>::from_angle(a)).to_cols_array(); let mi = sp::lat4(1); let m2 = <%s>::from_cols_array(&sp::f%dx4(mi));\n    let l2 = <%s>::from_mat2_translation(m2, t).to_cols_array(); let r2 = (<%s>::from_translation(t) * <%s>::from_mat2(m2)).to_cols_array();\n    check!(%s && %s, \"AT == T * R, from_mat2_translation == T * M\");" % (
                 T, T, T, M2, w, T, T, T, arr_eq("l", "r", nn), arr_eq("l2", "r2", nn))
             obs.append(Ob("c10_%s_%s_at" % (config, ln), PROP, body, fn="%s::from_angle_translation / from_mat2_translation" % T, kind="lemma", solver="cadical", stubs=["sse", "uf_sin_cos%d" % w], cls="lattice",
-                          tier="quick" if w == 32 else "thorough", desc="%s::from_angle_translation == T * R; from_mat2_translation == T * from_mat2" % T))
+                          tier="quick", desc="%s::from_angle_translation == T * R; from_mat2_translation == T * from_mat2" % T))
             body = "let m = mk::<%s>(); let (_s, _a, t) = m.to_scale_angle_translation(); let f = m.to_cols_array(); let tt = t.to_array();\n    check!(tt[0].to_bits() == f[4].to_bits() && tt[1].to_bits() == f[5].to_bits(), \"translation is the last column\");" % T
             obs.append(Ob("c10_%s_%s_decompose_translation" % (config, ln), PROP, body, fn="%s::to_scale_angle_translation" % T, kind="lemma", solver="cadical",
                           stubs=["sse", "uf_sqrt%d" % w, "uf_atan2%d" % w], cls="bits", tier="quick" if w == 32 else "thorough",
